@@ -132,6 +132,12 @@ def r3_per_client(ctx):
                     a, b = rv["ops"]
                     ok = all(x.kind == "param" and x.data == 2 for x in tr.operand(a)) and all(x.kind == "param" and x.data == 3 for x in tr.operand(b))
     ctx.check(ok, "ClientEntityMap::insert/stores-(server,client)", site_of(ins), "the pair is stored in another order than (server, client)")
+    # every registered pair is queued: the two ids live in different worlds, no relation between them makes a mapping redundant
+    if ps:
+        skipping = [e for e in ins.exits() if ins.reachable_avoiding(e, (), removed_blocks=tuple(bb for bb, _ in ps))]
+        ctx.check(not skipping, "ClientEntityMap::insert/every-pair-is-queued", site_of(ins, ps[0][0]),
+                  "a registered mapping can be dropped without being queued (conditions: %s): the client spawns a new entity instead of adopting its pre-spawned one" % (
+                      [(c["kind"], c.get("rel") or c.get("name") or "", sorted(map(str, o))) for (_, c, o) in required_outcomes(F, ins, ps[0][0])]))
 
 
 def r4_pair_order(ctx):
@@ -150,10 +156,17 @@ def r4_pair_order(ctx):
     ctx.check(ok and all(len(wm.loops_containing(bb)) == 1 for bb in we), "write_mappings/per-pair", site_of(wm), "")
 
 
+def r20_unconditional_mutators(ctx):
+    """Mutators this property relies on always perform their effect (shared table in rules/mutators.py)."""
+    import rules.mutators as mutators
+    mutators.run_for(ctx, "C16")
+
+
 RULES = [
     ("C16.R1", "pending mappings are drained into the same client's next update message and travel first", r1_travel_with_tick, 10, ["default", "all-features", "server-only"]),
     ("C16.R2", "adoption only if the pre-spawned entity still exists; the record spawns only when unmapped", r2_adoption, 8, ["default", "all-features", "client-only"]),
     ("C16.R3", "pending mappings are per client and stored as (server, client)", r3_per_client, 3, ["default", "all-features", "server-only"]),
     ("C16.R4", "mapping pairs are written as (server, client)", r4_pair_order, 2, ["default", "all-features", "server-only"]),
+    ("C16.R20", "mutators this property relies on always perform their effect (rules/mutators.py): no early return, no guard outside the allowed set", r20_unconditional_mutators, 1, ["default", "all-features"]),
 ]
 THOROUGH_CONFIGS = ["default", "all-features", "server-only", "client-only"]
